@@ -1,8 +1,9 @@
 (* Reference semantics of data_algebra pipelines over row-oriented tables (Base/Val.v).
    Scalars: numbers are exact rationals (VNum, always Qred-normal), booleans, strings, null (= None = NaN).
-   The scalar conventions are the Pandas executor's (the reference executor of C01): arithmetic propagates null,
-   comparisons with a null operand are False (True for !=), aggregates skip nulls.
-   Grouping treats null as a key value of its own; joins never match null keys (standard SQL), orders put nulls last. *)
+   Every backend convention that differs between executors is a field of `flavor`; `fl_pandas`, `fl_sqlite`,
+   `fl_postgres`, `fl_polars` are the conventions of the four executors (each validated against the real executor by the
+   correspondence runs) and `fl_spec` is the specification: Pandas scalar conventions (the reference executor of C01)
+   with the SQL join rule (null keys never match).  Grouping always treats null as a key value of its own. *)
 From Coq Require Import List Bool Arith ZArith QArith String.
 Import ListNotations.
 From DA Require Import Base.PyRT Base.Val.
@@ -30,6 +31,23 @@ Definition is_null (v : val) : bool := match v with VNull => true | _ => false e
 Definition truth (v : val) : bool :=
   match v with VBool b => b | VNum q => negb (Qeq_bool q 0) | VInt z => negb (Z.eqb z 0) | _ => false end.
 
+Record flavor := mkfl {
+  f_cmp3 : bool;               (* a comparison with a null operand is null (SQL, Polars); Pandas: False, and True for != *)
+  f_logic3 : bool;             (* and / or are Kleene three-valued (SQL, Polars); Pandas: a null operand counts as False *)
+  f_minmax_ignore_null : bool; (* maximum / minimum ignore a null operand (SQL templates, Polars); Pandas propagates it *)
+  f_fminmax_propagate : bool;  (* fmax / fmin propagate a null operand (SQL templates); Pandas and Polars ignore it *)
+  f_empty_agg_null : bool;     (* SUM of no non-null values, and count / size over no rows at all, are null (SQL, Polars); Pandas: 0 *)
+  f_running_carry : bool;      (* cumsum/cummax/cummin at a null row give the running value (SQL window); Pandas gives null *)
+  f_nulls_first_asc : bool;    (* ascending sort puts nulls first (SQLite, Polars); Pandas and PostgreSQL put them last *)
+  f_nulls_first_desc : bool;   (* descending sort puts nulls first (PostgreSQL) *)
+  f_join_null_match : bool     (* a null join key matches a null join key (pandas.merge); never in SQL *)
+}.
+Definition fl_pandas   := mkfl false false false false false false false false true.
+Definition fl_spec     := mkfl false false false false false false false false false.
+Definition fl_sqlite   := mkfl true  true  true  true  true  true  true  false false.
+Definition fl_postgres := mkfl true  true  true  true  true  true  false true  false.
+Definition fl_polars   := mkfl true  true  true  false true  false true  true  false.
+
 Definition num2 (f : Q -> Q -> Q) (a b : val) : val :=
   match num_of a, num_of b with Some x, Some y => qn (f x y) | _, _ => VNull end.
 
@@ -46,10 +64,10 @@ Definition cmp_str (c : cmp) (x y : string) : bool :=
   | CLt => String.ltb x y | CLe => String.leb x y
   | CGt => String.ltb y x | CGe => String.leb y x
   end.
-(* Pandas: any comparison with a null operand is False, except != which is True *)
-Definition compare_vals (c : cmp) (a b : val) : val :=
+(* Pandas: any comparison with a null operand is False, except != which is True; SQL / Polars: null *)
+Definition compare_vals (fl : flavor) (c : cmp) (a b : val) : val :=
   match a, b with
-  | VNull, _ | _, VNull => VBool (match c with CNe => true | _ => false end)
+  | VNull, _ | _, VNull => if f_cmp3 fl then VNull else VBool (match c with CNe => true | _ => false end)
   | VStr x, VStr y => VBool (cmp_str c x y)
   | _, _ => match num_of a, num_of b with
             | Some x, Some y => VBool (cmp_num c x y)
@@ -61,37 +79,47 @@ Definition qmax (x y : Q) : Q := if Qle_bool x y then y else x.
 Definition qmin (x y : Q) : Q := if Qle_bool x y then x else y.
 Definition qabs (x : Q) : Q := if Qle_bool 0 x then x else Qopp x.
 
-Definition scalar_op (op : string) (args : list val) : val :=
+(* Kleene connectives *)
+Definition and3 (a b : val) : val :=
+  if (negb (is_null a) && negb (truth a)) || (negb (is_null b) && negb (truth b)) then VBool false
+  else if is_null a || is_null b then VNull else VBool true.
+Definition or3 (a b : val) : val :=
+  if (negb (is_null a) && truth a) || (negb (is_null b) && truth b) then VBool true
+  else if is_null a || is_null b then VNull else VBool false.
+Definition ignore_null2 (f : Q -> Q -> Q) (a b : val) : val :=
+  if is_null a then b else if is_null b then a else num2 f a b.
+
+Definition scalar_op (fl : flavor) (op : string) (args : list val) : val :=
   match op, args with
   | "+", [a; b] => num2 Qplus a b
   | "-", [a; b] => num2 Qminus a b
   | "*", [a; b] => num2 Qmult a b
   | "-", [a] => match num_of a with Some x => qn (Qopp x) | None => VNull end
   | "abs", [a] => match num_of a with Some x => qn (qabs x) | None => VNull end
-  | "==", [a; b] => compare_vals CEq a b
-  | "!=", [a; b] => compare_vals CNe a b
-  | "<", [a; b] => compare_vals CLt a b
-  | "<=", [a; b] => compare_vals CLe a b
-  | ">", [a; b] => compare_vals CGt a b
-  | ">=", [a; b] => compare_vals CGe a b
-  | "and", [a; b] => VBool (truth a && truth b)
-  | "or", [a; b] => VBool (truth a || truth b)
+  | "==", [a; b] => compare_vals fl CEq a b
+  | "!=", [a; b] => compare_vals fl CNe a b
+  | "<", [a; b] => compare_vals fl CLt a b
+  | "<=", [a; b] => compare_vals fl CLe a b
+  | ">", [a; b] => compare_vals fl CGt a b
+  | ">=", [a; b] => compare_vals fl CGe a b
+  | "and", [a; b] => if f_logic3 fl then and3 a b else VBool (truth a && truth b)
+  | "or", [a; b] => if f_logic3 fl then or3 a b else VBool (truth a || truth b)
   | "is_null", [a] => VBool (is_null a)
   | "is_bad", [a] => VBool (is_null a)
   | "coalesce", [a; b] => if is_null a then b else a
   | "if_else", [c; a; b] => if is_null c then VNull else if truth c then a else b
-  | "maximum", [a; b] => num2 qmax a b                                   (* propagates null *)
-  | "minimum", [a; b] => num2 qmin a b
-  | "fmax", [a; b] => if is_null a then b else if is_null b then a else num2 qmax a b     (* ignores null *)
-  | "fmin", [a; b] => if is_null a then b else if is_null b then a else num2 qmin a b
+  | "maximum", [a; b] => if f_minmax_ignore_null fl then ignore_null2 qmax a b else num2 qmax a b
+  | "minimum", [a; b] => if f_minmax_ignore_null fl then ignore_null2 qmin a b else num2 qmin a b
+  | "fmax", [a; b] => if f_fminmax_propagate fl then num2 qmax a b else ignore_null2 qmax a b
+  | "fmin", [a; b] => if f_fminmax_propagate fl then num2 qmin a b else ignore_null2 qmin a b
   | _, _ => VNull
   end.
 
-Fixpoint eval_expr (cs : list string) (r : list val) (e : expr) : val :=
+Fixpoint eval_expr (fl : flavor) (cs : list string) (r : list val) (e : expr) : val :=
   match e with
   | ECol c => get cs r c
   | EConst v => v
-  | EOp op args => scalar_op op ((fix go (l : list expr) : list val := match l with [] => [] | a :: t => eval_expr cs r a :: go t end) args)
+  | EOp op args => scalar_op fl op ((fix go (l : list expr) : list val := match l with [] => [] | a :: t => eval_expr fl cs r a :: go t end) args)
   end.
 
 (* ------------------------------------------------------------------ aggregates and window functions *)
@@ -101,24 +129,34 @@ Definition qfold1 (f : Q -> Q -> Q) (l : list Q) : option Q :=
   match l with [] => None | x :: t => Some (fold_left f t x) end.
 Definition opt_num (o : option Q) : val := match o with Some q => qn q | None => VNull end.
 
-Definition agg_fn (op : string) (vs : list val) : val :=
+Definition agg_fn (fl : flavor) (op : string) (vs : list val) : val :=
   match op with
-  | "sum" => qn (qsum (nums vs))                         (* Pandas: sum of no values is 0 *)
+  | "sum" => match nums vs with
+             | [] => if f_empty_agg_null fl then VNull else qn 0      (* Pandas: sum of no values is 0; SQL: NULL *)
+             | l => qn (qsum l)
+             end
   | "mean" => match nums vs with [] => VNull | l => qn (Qdiv (qsum l) (inject_Z (Z.of_nat (List.length l)))) end
   | "min" => opt_num (qfold1 qmin (nums vs))
   | "max" => opt_num (qfold1 qmax (nums vs))
-  | "count" => qn (inject_Z (Z.of_nat (List.length (filter (fun v => negb (is_null v)) vs))))
-  | "size" | "_size" => qn (inject_Z (Z.of_nat (List.length vs)))
+  | "count" => match vs with
+               | [] => if f_empty_agg_null fl then VNull else qn 0
+               | _ => qn (inject_Z (Z.of_nat (List.length (filter (fun v => negb (is_null v)) vs))))
+               end
+  | "size" | "_size" => match vs with
+                        | [] => if f_empty_agg_null fl then VNull else qn 0
+                        | _ => qn (inject_Z (Z.of_nat (List.length vs)))
+                        end
   | _ => VNull
   end.
 
-(* running fold that skips nulls but leaves them null in the output (pandas cumsum / cummax / cummin) *)
-Fixpoint running (f : Q -> Q -> Q) (acc : option Q) (vs : list val) : list val :=
+(* running fold that skips nulls; at a null position the output is null (pandas cumsum / cummax / cummin) or,
+   with carry, the value accumulated so far (SQL SUM/MAX/MIN ... OVER (ORDER BY ...)) *)
+Fixpoint running (carry : bool) (f : Q -> Q -> Q) (acc : option Q) (vs : list val) : list val :=
   match vs with
   | [] => []
   | v :: t => match num_of v with
-              | None => VNull :: running f acc t
-              | Some x => let a := match acc with None => x | Some y => f y x end in qn a :: running f (Some a) t
+              | None => (if carry then opt_num acc else VNull) :: running carry f acc t
+              | Some x => let a := match acc with None => x | Some y => f y x end in qn a :: running carry f (Some a) t
               end
   end.
 Fixpoint shift_right (n : nat) (vs : list val) : list val :=
@@ -128,11 +166,11 @@ Fixpoint number_from (i : nat) (vs : list val) : list val :=
   match vs with [] => [] | _ :: t => qn (inject_Z (Z.of_nat i)) :: number_from (S i) t end.
 
 (* value of a window function for every position of an ORDERED partition; extra = the literal arguments after the first *)
-Definition win_fn (op : string) (extra : list val) (vs : list val) : list val :=
+Definition win_fn (fl : flavor) (op : string) (extra : list val) (vs : list val) : list val :=
   match op with
-  | "cumsum" => running Qplus None vs
-  | "cummax" => running qmax None vs
-  | "cummin" => running qmin None vs
+  | "cumsum" => running (f_running_carry fl) Qplus None vs
+  | "cummax" => running (f_running_carry fl) qmax None vs
+  | "cummin" => running (f_running_carry fl) qmin None vs
   | "_row_number" | "row_number" => number_from 1 vs
   | "shift" =>
       match extra with
@@ -140,11 +178,11 @@ Definition win_fn (op : string) (extra : list val) (vs : list val) : list val :=
       | VNum q :: _ => let z := Qnum q in if Z.leb 0 z then shift_right (Z.to_nat z) vs else shift_left (Z.to_nat (Z.opp z)) vs
       | _ => map (fun _ => VNull) vs
       end
-  | _ => let a := agg_fn op vs in map (fun _ => a) vs            (* group aggregate broadcast to every row *)
+  | _ => let a := agg_fn fl op vs in map (fun _ => a) vs         (* group aggregate broadcast to every row *)
   end.
 
 (* ------------------------------------------------------------------ orders *)
-(* total preorder on values used by sorts: nulls last, numbers by value, strings by code point *)
+(* total preorder on NON-NULL values used by sorts: numbers by value, then strings by code point (nulls: see v_le_dir) *)
 Definition v_le (a b : val) : bool :=
   match a, b with
   | _, VNull => true
@@ -161,16 +199,22 @@ Definition v_eqv (a b : val) : bool :=          (* same group key / same sort ke
   | VNull, _ | _, VNull | VStr _, _ | _, VStr _ => false
   | _, _ => match num_of a, num_of b with Some x, Some y => Qeq_bool x y | _, _ => false end
   end.
-(* descending keeps nulls last (pandas na_position='last') *)
-Definition v_le_dir (desc : bool) (a b : val) : bool :=
-  if desc then (match a, b with _, VNull => true | VNull, _ => false | _, _ => v_le b a end) else v_le a b.
+(* comparison for one sort key: nf = nulls come first; desc = descending on the non-null values *)
+Definition v_le_dir (nf desc : bool) (a b : val) : bool :=
+  match a, b with
+  | VNull, VNull => true
+  | VNull, _ => nf
+  | _, VNull => negb nf
+  | _, _ => if desc then v_le b a else v_le a b
+  end.
+Definition nulls_first (fl : flavor) (desc : bool) : bool := if desc then f_nulls_first_desc fl else f_nulls_first_asc fl.
 
 (* lexicographic comparison of rows on keys (column, descending?) *)
-Fixpoint row_le (cs : list string) (keys : list (string * bool)) (r1 r2 : list val) : bool :=
+Fixpoint row_le (fl : flavor) (cs : list string) (keys : list (string * bool)) (r1 r2 : list val) : bool :=
   match keys with
   | [] => true
   | (c, d) :: t => let a := get cs r1 c in let b := get cs r2 c in
-                   if v_eqv a b then row_le cs t r1 r2 else v_le_dir d a b
+                   if v_eqv a b then row_le fl cs t r1 r2 else v_le_dir (nulls_first fl d) d a b
   end.
 
 Section Sort.
@@ -197,12 +241,12 @@ Definition set_cell (cs : list string) (r : list val) (c : string) (v : val) : l
 Definition ext_cols (cs : list string) (ks : list string) : list string := fold_left add_end ks cs.
 
 (* row-wise extend: every expression is evaluated on the OLD row *)
-Definition extend_row (cs : list string) (ops : list (string * expr)) (r : list val) : list val :=
+Definition extend_row (fl : flavor) (cs : list string) (ops : list (string * expr)) (r : list val) : list val :=
   fst (fold_left (fun acc ke => let '(row, ccs) := acc in
-                                 (set_cell ccs row (fst ke) (eval_expr cs r (snd ke)), add_end ccs (fst ke)))
+                                 (set_cell ccs row (fst ke) (eval_expr fl cs r (snd ke)), add_end ccs (fst ke)))
                  ops (r, cs)).
-Definition sem_extend (ops : list (string * expr)) (t : table) : table :=
-  mktable (ext_cols (cols t) (map fst ops)) (map (extend_row (cols t) ops) (rows t)).
+Definition sem_extend (fl : flavor) (ops : list (string * expr)) (t : table) : table :=
+  mktable (ext_cols (cols t) (map fst ops)) (map (extend_row fl (cols t) ops) (rows t)).
 
 Record window := mkwin { w_part : list string; w_order : list string; w_rev : list string }.
 
@@ -218,26 +262,26 @@ Definition win_parts (e : expr) : option (string * option expr * list val) :=
 Fixpoint tag_from (i : nat) (rs : list (list val)) : list (nat * list val) :=
   match rs with [] => [] | r :: t => (i, r) :: tag_from (S i) t end.
 
-Definition window_column (w : window) (t : table) (e : expr) : list (nat * val) :=
+Definition window_column (fl : flavor) (w : window) (t : table) (e : expr) : list (nat * val) :=
   let cs := cols t in
   let tagged := tag_from 0 (rows t) in
   let okeys := map (fun c => (c, mem c (w_rev w))) (w_order w) in
   let groups := distinct_keys (map (fun r => key_of cs (w_part w) r) (rows t)) in
   flat_map (fun k =>
               let part := filter (fun ir => keys_eqv k (key_of cs (w_part w) (snd ir))) tagged in
-              let sorted := stable_sort (fun a b => row_le cs okeys (snd a) (snd b)) part in
+              let sorted := stable_sort (fun a b => row_le fl cs okeys (snd a) (snd b)) part in
               match win_parts e with
               | Some (op, arg, extra) =>
-                  let vs := map (fun ir => match arg with Some a => eval_expr cs (snd ir) a | None => VBool true end) sorted in
-                  combine (map fst sorted) (win_fn op extra vs)
+                  let vs := map (fun ir => match arg with Some a => eval_expr fl cs (snd ir) a | None => VBool true end) sorted in
+                  combine (map fst sorted) (win_fn fl op extra vs)
               | None => map (fun ir => (fst ir, VNull)) sorted
               end) groups.
 
 Definition lookup_pos (l : list (nat * val)) (i : nat) : val :=
   match find (fun p => Nat.eqb (fst p) i) l with Some p => snd p | None => VNull end.
 
-Definition sem_wextend (ops : list (string * expr)) (w : window) (t : table) : table :=
-  let wcols := map (fun ke => (fst ke, window_column w t (snd ke))) ops in
+Definition sem_wextend (fl : flavor) (ops : list (string * expr)) (w : window) (t : table) : table :=
+  let wcols := map (fun ke => (fst ke, window_column fl w t (snd ke))) ops in
   mktable (ext_cols (cols t) (map fst ops))
           (map (fun ir => fst (fold_left (fun acc kc => let '(row, ccs) := acc in
                                                         (set_cell ccs row (fst kc) (lookup_pos (snd kc) (fst ir)), add_end ccs (fst kc)))
@@ -251,20 +295,20 @@ Definition agg_parts (e : expr) : option (string * option expr) :=
   | EOp op [a] => Some (op, Some a)
   | _ => None
   end.
-Definition agg_value (cs : list string) (grp : list (list val)) (e : expr) : val :=
+Definition agg_value (fl : flavor) (cs : list string) (grp : list (list val)) (e : expr) : val :=
   match agg_parts e with
-  | Some (op, arg) => agg_fn op (map (fun r => match arg with Some a => eval_expr cs r a | None => VBool true end) grp)
+  | Some (op, arg) => agg_fn fl op (map (fun r => match arg with Some a => eval_expr fl cs r a | None => VBool true end) grp)
   | None => VNull
   end.
-Definition sem_project (ops : list (string * expr)) (gb : list string) (t : table) : table :=
+Definition sem_project (fl : flavor) (ops : list (string * expr)) (gb : list string) (t : table) : table :=
   let cs := cols t in
   let groups := match gb with [] => [[]] | _ => distinct_keys (map (key_of cs gb) (rows t)) end in
   mktable (gb ++ map fst ops)
           (map (fun k => let grp := filter (fun r => keys_eqv k (key_of cs gb r)) (rows t) in
-                         k ++ map (fun ke => agg_value cs grp (snd ke)) ops) groups).
+                         k ++ map (fun ke => agg_value fl cs grp (snd ke)) ops) groups).
 
-Definition sem_select_rows (e : expr) (t : table) : table :=
-  mktable (cols t) (filter (fun r => truth (eval_expr (cols t) r e)) (rows t)).
+Definition sem_select_rows (fl : flavor) (e : expr) (t : table) : table :=
+  mktable (cols t) (filter (fun r => truth (eval_expr fl (cols t) r e)) (rows t)).
 Definition sem_select_cols (cs : list string) (t : table) : table :=
   mktable cs (map (fun r => map (get (cols t) r) cs) (rows t)).
 Definition sem_drop_cols (ds : list string) (t : table) : table :=
@@ -273,25 +317,25 @@ Definition sem_drop_cols (ds : list string) (t : table) : table :=
 Definition rename_col (m : list (string * string)) (c : string) : string :=
   match find (fun no => String.eqb (snd no) c) m with Some no => fst no | None => c end.
 Definition sem_rename (m : list (string * string)) (t : table) : table := mktable (map (rename_col m) (cols t)) (rows t).
-Definition sem_order (cs rev : list string) (limit : option nat) (t : table) : table :=
+Definition sem_order (fl : flavor) (cs rev : list string) (limit : option nat) (t : table) : table :=
   let keys := map (fun c => (c, mem c rev)) cs in
-  let sorted := stable_sort (row_le (cols t) keys) (rows t) in
+  let sorted := stable_sort (row_le fl (cols t) keys) (rows t) in
   mktable (cols t) (match limit with Some n => firstn n sorted | None => sorted end).
 
-(* natural join on equally named key columns; null keys never match; shared non-key columns are coalesced left-first *)
+(* natural join on the key pairs (on_a[i], on_b[i]); every output column present on both sides is coalesced left-first *)
 Inductive jointype := JInner | JLeft | JRight | JFull.
 (* nm = "null keys match" : false is the SQL specification; true is what pandas.merge does *)
 Definition keys_match (nm : bool) (ka kb : list val) : bool := (nm || negb (existsb is_null ka)) && keys_eqv ka kb.
-Definition sem_join (nm : bool) (on : list string) (jt : jointype) (a b : table) : table :=
+Definition sem_join (nm : bool) (on_a on_b : list string) (jt : jointype) (a b : table) : table :=
   let ca := cols a in let cb := cols b in
   let out := ca ++ filter (fun c => negb (mem c ca)) cb in
   let mk (ra rb : option (list val)) : list val :=
     map (fun c => let va := match ra with Some r => if mem c ca then get ca r c else VNull | None => VNull end in
                   let vb := match rb with Some r => if mem c cb then get cb r c else VNull | None => VNull end in
                   if is_null va then vb else va) out in
-  let matched := flat_map (fun ra => flat_map (fun rb => if keys_match nm (key_of ca on ra) (key_of cb on rb) then [mk (Some ra) (Some rb)] else []) (rows b)) (rows a) in
-  let left_only := flat_map (fun ra => if existsb (fun rb => keys_match nm (key_of ca on ra) (key_of cb on rb)) (rows b) then [] else [mk (Some ra) None]) (rows a) in
-  let right_only := flat_map (fun rb => if existsb (fun ra => keys_match nm (key_of ca on ra) (key_of cb on rb)) (rows a) then [] else [mk None (Some rb)]) (rows b) in
+  let matched := flat_map (fun ra => flat_map (fun rb => if keys_match nm (key_of ca on_a ra) (key_of cb on_b rb) then [mk (Some ra) (Some rb)] else []) (rows b)) (rows a) in
+  let left_only := flat_map (fun ra => if existsb (fun rb => keys_match nm (key_of ca on_a ra) (key_of cb on_b rb)) (rows b) then [] else [mk (Some ra) None]) (rows a) in
+  let right_only := flat_map (fun rb => if existsb (fun ra => keys_match nm (key_of ca on_a ra) (key_of cb on_b rb)) (rows a) then [] else [mk None (Some rb)]) (rows b) in
   mktable out (matched ++ (match jt with JLeft | JFull => left_only | _ => [] end) ++ (match jt with JRight | JFull => right_only | _ => [] end)).
 
 Definition sem_concat (idcol : option string) (an bn : string) (a b : table) : table :=
@@ -310,30 +354,32 @@ Inductive op :=
   | OSelectRows (src : op) (e : expr)
   | OSelectCols (src : op) (cs : list string)
   | ODropCols (src : op) (cs : list string)
-  | ORename (src : op) (m : list (string * string))
+  | ORename (src : op) (m : list (string * string))                      (* m : NEW name -> OLD name *)
+  | OMapCols (src : op) (m : list (string * string)) (dels : list string)  (* m : NEW name -> OLD name, then delete dels *)
   | OOrder (src : op) (cs rev : list string) (limit : option nat)
-  | OJoin (a b : op) (on : list string) (jt : jointype)
+  | OJoin (a b : op) (on_a on_b : list string) (jt : jointype)
   | OConcat (a b : op) (idcol : option string) (an bn : string).
 
 Definition env := list (string * table).
 
-(* sem_gen nm: nm selects the join's null-key rule (false = SQL specification, true = pandas.merge) *)
-Fixpoint sem_gen (nm : bool) (p : op) (e : env) : option table :=
-  let sem := sem_gen nm in
+(* sem_gen fl: the meaning of a pipeline under the conventions fl *)
+Fixpoint sem_gen (fl : flavor) (p : op) (e : env) : option table :=
+  let sem := sem_gen fl in
   match p with
   | OTable n cs => match dict_get e n with Some t => Some (sem_select_cols cs t) | None => None end
-  | OExtend s ops wd w => option_map (if wd then sem_wextend ops w else sem_extend ops) (sem s e)
-  | OProject s ops gb => option_map (sem_project ops gb) (sem s e)
-  | OSelectRows s x => option_map (sem_select_rows x) (sem s e)
+  | OExtend s ops wd w => option_map (if wd then sem_wextend fl ops w else sem_extend fl ops) (sem s e)
+  | OProject s ops gb => option_map (sem_project fl ops gb) (sem s e)
+  | OSelectRows s x => option_map (sem_select_rows fl x) (sem s e)
   | OSelectCols s cs => option_map (sem_select_cols cs) (sem s e)
   | ODropCols s cs => option_map (sem_drop_cols cs) (sem s e)
   | ORename s m => option_map (sem_rename m) (sem s e)
-  | OOrder s cs rev lim => option_map (sem_order cs rev lim) (sem s e)
-  | OJoin a b on jt => match sem a e, sem b e with Some ta, Some tb => Some (sem_join nm on jt ta tb) | _, _ => None end
+  | OMapCols s m dels => option_map (fun t => sem_drop_cols dels (sem_rename m t)) (sem s e)
+  | OOrder s cs rev lim => option_map (sem_order fl cs rev lim) (sem s e)
+  | OJoin a b on_a on_b jt => match sem a e, sem b e with Some ta, Some tb => Some (sem_join (f_join_null_match fl) on_a on_b jt ta tb) | _, _ => None end
   | OConcat a b idc an bn => match sem a e, sem b e with Some ta, Some tb => Some (sem_concat idc an bn ta tb) | _, _ => None end
   end.
 
-Definition sem := sem_gen false.
+Definition sem := sem_gen fl_spec.
 
 (* declared columns of a pipeline (the builders' bookkeeping) *)
 Fixpoint column_names (p : op) : list string :=
@@ -345,7 +391,8 @@ Fixpoint column_names (p : op) : list string :=
   | OSelectCols _ cs => cs
   | ODropCols s ds => filter (fun c => negb (mem c ds)) (column_names s)
   | ORename s m => map (rename_col m) (column_names s)
+  | OMapCols s m dels => filter (fun c => negb (mem c dels)) (map (rename_col m) (column_names s))
   | OOrder s _ _ _ => column_names s
-  | OJoin a b _ _ => column_names a ++ filter (fun c => negb (mem c (column_names a))) (column_names b)
+  | OJoin a b _ _ _ => column_names a ++ filter (fun c => negb (mem c (column_names a))) (column_names b)
   | OConcat a _ idc _ _ => column_names a ++ (match idc with Some c => [c] | None => [] end)
   end.
